@@ -440,6 +440,11 @@ pub fn remove_dot_segments(path: &str) -> String {
 }
 
 fn parse_authority(a: &str) -> Option<(String, Option<u16>)> {
+    // userinfo is not part of the origin
+    let a = match a.rfind('@') {
+        Some(i) => &a[i + 1..],
+        None => a,
+    };
     if a.is_empty() {
         return None;
     }
@@ -462,7 +467,8 @@ pub fn resolve(base: &RefUri, r: &str) -> Option<RefUri> {
     let p = split_ref(r);
     let (scheme, host, port, path, query);
     if let Some(s) = p.scheme {
-        scheme = s.to_string();
+        // scheme and host are case-insensitive (RFC 3986 section 6.2.2.1)
+        scheme = s.to_ascii_lowercase();
         let (h, po) = parse_authority(p.authority?)?;
         host = h;
         port = po;
@@ -504,7 +510,7 @@ pub fn resolve(base: &RefUri, r: &str) -> Option<RefUri> {
             }
         }
     }
-    let mut u = RefUri { scheme, host, port, path, query };
+    let mut u = RefUri { scheme, host: host.to_ascii_lowercase(), port, path, query };
     if u.path.is_empty() {
         u.path = "/".to_string();
     }
